@@ -4,27 +4,52 @@ signals (arrays and scalars), separable objective sum c_i / x_i (+ convex quadra
 import numpy as np
 
 FP = 100000   # fixed-point unit 1e-5
+START_CYCLE = ["float", "int", "shared", "slice", "float", "float"]
 
 
 def fp(v):
     return [int(round(float(x) * FP)) for x in np.atleast_1d(np.asarray(v, dtype=float))]
 
 
-def make_problem(rng, n_sig=None, with_quadratic=False, scalars=True):
+def make_problem(rng, n_sig=None, with_quadratic=False, scalars=True, start=None):
+    """start: how the design variables exist at the start - "float" (own float arrays / floats), "int" (integer-typed arrays and
+    ints, all 1), "shared" (two variable signals constructed from the same array object), "slice" (SignalSlice views, one of
+    them through an index array, into one larger signal)"""
     import pymoto as pym
+    start = start or str(rng.choice(["float", "float", "float", "int", "shared", "slice"]))
     n_sig = n_sig or int(rng.integers(1, 4))
     lens = [int(rng.choice([1, 1, 2, 3, 4])) if scalars else int(rng.integers(2, 5)) for _ in range(n_sig)]
+    if start == "shared":
+        k = int(rng.integers(2, 5))
+        lens = [k, k] + lens[2:]
     n = sum(lens)
     c = 0.5 + 2.0 * rng.random(n)
     a = 0.5 + rng.random(n)
     sigs = []
-    k = 0
     x0_all = []
-    for s, ln in enumerate(lens):
-        x0 = 0.3 + 0.4 * rng.random(ln)
-        x0_all.append(x0)
-        sigs.append(pym.Signal("x%d" % s, float(x0[0]) if ln == 1 and scalars and rng.random() < 0.7 else x0.copy()))
-        k += ln
+    if start == "slice":
+        x0_all = [0.3 + 0.4 * rng.random(ln) for ln in lens]
+        big = pym.Signal("X", np.concatenate([[0.11]] + x0_all + [[0.99]]))
+        pos = 1
+        for s, ln in enumerate(lens):
+            idx = np.arange(pos, pos + ln) if s == 0 else slice(pos, pos + ln)       # the first one through an index array
+            sigs.append(big[idx])
+            pos += ln
+    else:
+        shared = None
+        for s, ln in enumerate(lens):
+            if start == "int":
+                x0 = np.ones(ln)
+                st = 1 if ln == 1 and scalars and rng.random() < 0.7 else np.ones(ln, dtype=int)
+            elif start == "shared" and s < 2:
+                if shared is None:
+                    shared = 0.3 + 0.4 * rng.random(ln)
+                x0, st = shared.copy(), shared
+            else:
+                x0 = 0.3 + 0.4 * rng.random(ln)
+                st = float(x0[0]) if ln == 1 and scalars and rng.random() < 0.7 else x0.copy()
+            x0_all.append(x0)
+            sigs.append(pym.Signal("x%d" % s, st))
     x0_all = np.concatenate(x0_all)
     vol = float(a @ x0_all) * float(rng.choice([0.8, 1.0, 1.1]))
     cum = np.concatenate([[0], np.cumsum(lens)])
@@ -60,7 +85,7 @@ def make_problem(rng, n_sig=None, with_quadratic=False, scalars=True):
         mods.append(Quad(sigs))
     net = pym.Network(mods)
     responses = [m.sig_out[0] for m in mods]
-    return dict(net=net, sigs=sigs, responses=responses, lens=lens, c=c, a=a, vol=vol, x0=x0_all, n=n)
+    return dict(net=net, sigs=sigs, responses=responses, lens=lens, c=c, a=a, vol=vol, x0=x0_all, n=n, start=start)
 
 
 def analytic_optimum(c, a, vol, xmin, xmax):
